@@ -42,6 +42,22 @@ CHECKS = {
                 text="All validation outcome scripts (user module: improve/stop per call; built-in ValidationLoss: loss values, patience 0..2, early stopping on/off), periods and iteration counts are model-checked; "
                      "scenarios are replayed with a scripted AbstractValidationModule or the real ValidationLoss with its own (mini-batched) generators; criterion history, stop iteration and best parameters decode exactly.",
                 note="tagged arithmetic under x64; ValidationLoss criterion = rank^2*4^12 + batch tags so that stale validation generators are visible", ref="3.4 C19"),
+    "C01": dict(cat="model_checking", tech="TLC enumeration of the operator configuration space (MC_Operators.tla) + exact conformance of jinns' operators against Operators.tla (Trace_Func.tla)",
+                text="TLC enumerates dim 1..4 x time? x operator x every monomial of total degree <= 3 (the determining set) per output component; the real reverse-mode operators are evaluated on "
+                     "polynomial PINNs under x64 and must equal the exact polynomial calculus of the specification (spatial derivatives only), plus seeded random polynomial fields.",
+                note="polynomial fields only; JAX AD on transcendental activations is trusted", ref="2.3 3.6 C01"),
+    "C03": dict(cat="model_checking", tech="TLC enumeration of loss structures (MC_Loss.tla) + exact conformance of loss.evaluate against LossSemantics.tla (Trace_Func.tla)",
+                text="Every structure (loss kind x residual components x weight form x batch size x subset of other terms x twins) is instantiated with polynomial networks/residuals and integer batches; "
+                     "total, dynamic term and exact zeros of unconfigured terms must equal the oracle; permutation/halves/linearity are lemmas checked on the twin records.",
+                note="polynomial networks and residual maps (exact under x64)", ref="3.6 C03"),
+    "C04": dict(cat="model_checking", tech="TLC enumeration of all per-facet condition assignments (MC_Loss.tla) + exact conformance of the boundary term against LossSemantics!Bnd (Trace_Func.tla)",
+                text="All 3^facets assignments x dims x stationary/non-stationary x global/dict x zero/non-zero f x scalar/array return x component selection x border and time batch sizes; "
+                     "expected value uses outward normals and the facet order xmin, xmax, ymin, ymax.",
+                note="polynomial networks; Neumann for one selected component; scalar boundary weight", ref="3.6 C04"),
+    "C05": dict(cat="model_checking", tech="TLC enumeration of term structures (MC_Loss.tla) + exact conformance of the IC / normalisation / observation terms against LossSemantics.tla (Trace_Func.tla)",
+                text="Initial-condition (ODE tuple, PDE function over cartesian and paired batches), normalisation (sample counts, volumes, non-constant u, sliced solution, batch times) and observation terms "
+                     "(slices, weights, observed parameters entering u) are compared exactly with their definitions.",
+                note="polynomial networks; normalisation for a scalar (sliced) solution", ref="3.6 C05"),
 }
 NA = {}
 
